@@ -1,3 +1,7 @@
+import json
+import os
+import subprocess
+
 KEY = "pending-gap-after-partial-reinject"
 KNOWN = [{
     "property": "C20", "status": "open", "key": KEY,
@@ -8,9 +12,35 @@ KNOWN = [{
 }]
 
 
+def race_run(seed, millis):
+    """Builds the harness with -race and runs the concurrent workload.
+    Returns a dict for the evidence; 'races' > 0 means the detector fired."""
+    import vf
+    h = os.path.join(vf.VERIF, "harness")
+    out = os.path.join(vf.BUILD, "c20_race")
+    ov = vf.overlay_file("c20", SPEC["hooks"])
+    cmd = ["go", "build", "-race", "-tags", "verif", "-overlay", ov, "-o", out]
+    if vf.REPO != "/repo":
+        cmd += ["-modfile", os.path.join(vf.BUILD, "alt_c20.go.mod")]
+    with vf.Lock("go"):
+        rc, log = vf.sh(cmd + ["./cmd/c20"], cwd=h, env=vf.GOENV, timeout=1500)
+    if rc != 0:
+        return {"built": False, "log": log[-1500:]}
+    rc, log = vf.sh([out, "stress", "-seed", str(seed), "-n", str(millis)], env=vf.GOENV, timeout=600)
+    res = {"built": True, "exit": rc, "races": log.count("WARNING: DATA RACE"), "tail": log[-1200:]}
+    for line in log.splitlines():
+        if line.startswith("{"):
+            try:
+                res["workload"] = json.loads(line)
+            except Exception:
+                pass
+    return res
+
+
 def check(pid, tier, seed):
-    """standard_check, with the C20 finding listed here until it is moved to
-    /verif/known_findings.json (builders do not edit shared files)."""
+    """standard_check, with (a) the C20 finding listed here until it is moved to
+    /verif/known_findings.json (builders do not edit shared files) and (b) in the
+    thorough tier the -race run of the concurrent workload."""
     import vf
     orig = vf.load_known
 
@@ -21,28 +51,86 @@ def check(pid, tier, seed):
         return ks
     vf.load_known = load_known
     try:
-        return vf.standard_check(pid, tier, seed)
+        rc = vf.standard_check(pid, tier, seed)
     finally:
         vf.load_known = orig
+    if tier == "thorough":
+        rr = race_run(seed, 8000)
+        evp = os.path.join(vf.VERIF, "evidence", pid + ".json")
+        try:
+            ev = json.load(open(evp))
+            ev["coverage"]["race_run"] = rr
+            if rr.get("races", 0) > 0 or (rr.get("built") and rr.get("exit") not in (0,)):
+                d = os.path.join(vf.VERIF, "replays")
+                rp = os.path.join(d, "C20_race.json")
+                json.dump({"what": "race detector or final-state oracle fired in the concurrent workload",
+                           "replay_cmd": "build/c20_race stress -seed %d -n 8000" % seed, "output": rr}, open(rp, "w"), indent=1)
+                print("VIOLATION property=C20 replay=%s" % rp, flush=True)
+                ev["violations"] = ev.get("violations", 0) + 1
+                rc = 1
+            json.dump(ev, open(evp, "w"), indent=1)
+        except Exception as e:   # evidence file missing: standard_check already reported why
+            print("race run not recorded:", e)
+    return rc
 
 
 SPEC = {
-    "level_text": "TODO",
-    "level_note": "TODO",
+    "level_text": "Coq theorems over all configurations, all genesis states and all sequences of pool critical sections "
+                  "(submission batches local/remote, runReorg with any reset/dirty-set/scheduler order, re-pricing, eviction, "
+                  "removal, Pending()) with arbitrary arguments: the lookup is at all times the disjoint union of the pending "
+                  "and queued views, every transaction filed under its sender, one nonce per account names at most one "
+                  "pooled transaction, none is both pending and queued. The clause 'pending is gap-free from the account "
+                  "nonce' is REFUTED for the code as it is (theorem + replayable witness, listed finding with a 15-line "
+                  "repair that the model also carries). The model is a hand-written mirror of tx_pool.go/tx_list.go/"
+                  "tx_noncer.go, compared with the real pool after every critical section of thousands of random histories "
+                  "inside Coq; the lock discipline is checked on a method table regenerated from the source.",
+    "level_note": "Trusted: Coq kernel + vm_compute; fidelity of the hand model rests on the differential check "
+                  "(reach reported in evidence); price heap, journal, events and uint64 wrap-around are outside the model; "
+                  "the data-race clause is partial (lock inventory + -race run as supporting evidence); no axioms.",
     "check": check,
     "harness": "c20",
     "hooks": ["core/zz_verif_c20.go"],
-    "translators": [],
-    "coq_targets": ["C20/Model.vo", "C20/Properties.vo"],
+    "translators": [["locks", "-out", "{gen}/C20Locks.v"]],
+    "coq_targets": ["C20/Model.vo", "C20/Spec.vo", "C20/Lemmas.vo", "C20/ProofsWF.vo", "C20/ProofsWF2.vo",
+                    "C20/ProofsWF3.vo", "C20/Proofs.vo", "gen/C20Locks.vo", "C20/Bridge.vo", "C20/Properties.vo"],
+    "coq_dirs": ["C20"],
     "properties_v": "C20/Properties.v",
-    "obligations": ["C20_nonvacuous_run"],
+    "obligations": [
+        "C20_views_partition", "C20_never_pending_and_queued", "C20_pending_gapfree_refuted",
+        "C20_lock_discipline", "C20_evict_branch_as_modelled",
+        "C20_nonvacuous_partition", "C20_nonvacuous_repair",
+    ],
     "cases": {"quick": 300, "thorough": 6000},
     "shard": 300,
+    "search_factor": 3,
     "gen_args": [],
     "allowed_axioms": [],
     "finding_key": lambda h: h.get("what"),
-    "trusted_base": [],
-    "assumptions": [],
-    "modelled": [],
-    "partial": [],
+    "trusted_base": [
+        "Coq 8.16.1 kernel (vm_compute for the lock table, the witnesses and the in-Coq model runs; no native_compute)",
+        "no axioms: every obligation is Closed under the global context",
+        "hand-written model coq/C20/Model.v of core/tx_pool.go, tx_list.go, tx_noncer.go (one op = one pool.mu critical section)",
+        "correspondence harness harness/cmd/c20 (Go, real TxPool with a scripted chain) + in-Coq evaluation of the model on the same histories; "
+        "scheduler choices the harness cannot observe (Go map order, sort.Sort on equal heartbeats) are searched by the model runner",
+        "hook hooks/core/zz_verif_c20.go: exports internals, runs single critical sections; replicates the 6-line eviction branch of TxPool.loop "
+        "(fingerprinted by the translator, obligation C20_evict_branch_as_modelled)",
+        "translator 'c20 locks' (go/ast inventory of lock regions of every TxPool method -> coq/gen/C20Locks.v)",
+        "harness-side detection of whether the tree carries fixes/C20_pending_gap_after_partial_reinject.diff (selects the model's gapfix branch)",
+    ],
+    "assumptions": [
+        "transaction hashes are collision free and types.Sender is a function of the transaction (fields t_id, t_from of the model)",
+        "nonces, gas and prices stay below 2^64 (uint64 wrap-around is not modelled; N is unbounded)",
+        "the price heap is represented by its meaning (price order over the lookup); its stale counter is checked only by the harness oracle",
+        "journal, event feed, metrics, NewTxPool's config sanitising and the wall clock (Lifetime test) are outside the model",
+        "every access to the pool's shared fields happens inside a pool.mu critical section (checked on the regenerated method table, "
+        "with the listed latent exception TransactionsNumber) - under it concurrent executions are interleavings of the model's ops",
+        "reset with an unknown *new* head inside the reorg-walk range dereferences nil in Go; the harness never does this",
+    ],
+    "modelled": ["core.(*TxPool).add", "addTxsLocked", "validateTx", "enqueueTx", "promoteTx", "promoteExecutables",
+                 "demoteUnexecutables", "reset", "runReorg", "truncatePending", "truncateQueue", "removeTx", "SetGasPrice",
+                 "Pending", "eviction branch of loop", "txList.*", "txSortedMap.*", "txNoncer.*", "txLookup.*",
+                 "txPricedList.Underpriced/Discard/Cap (by meaning)"],
+    "partial": [
+        "data races: Go memory model is outside Coq; lock inventory (C20_lock_discipline) + -race run of a concurrent workload (thorough tier) are supporting evidence",
+    ],
 }
